@@ -169,9 +169,40 @@ def strlit(s: str) -> z3.ExprRef:
 def strv(s: str) -> Val: return Val(STR, strlit(s))
 
 
+STR_LOWER = z3.Function("str_lower", StrS, StrS)
+STR_UPPER = z3.Function("str_upper", StrS, StrS)
+STR_STRIP = z3.Function("str_strip", StrS, StrS)
+CASE_USED = [False]
+
+
+_AX_CACHE = [None, None]
+
+
 def str_axioms() -> List[z3.BoolRef]:
+    key = (len(STR_LITS), CASE_USED[0])
+    if _AX_CACHE[0] == key:
+        return _AX_CACHE[1]
+    out = _str_axioms()
+    _AX_CACHE[0], _AX_CACHE[1] = (len(STR_LITS), CASE_USED[0]), out
+    return out
+
+
+def _str_axioms() -> List[z3.BoolRef]:
+    out: List[z3.BoolRef] = []
+    if CASE_USED[0]:
+        # str.lower/upper on interned literals are computed; two closure rounds suffice (lower/upper are idempotent)
+        for _ in range(2):
+            for s in list(STR_LITS):
+                strlit(s.lower()), strlit(s.upper()), strlit(s.strip())
+        for s, c in STR_LITS.items():
+            out += [STR_LOWER(c) == strlit(s.lower()), STR_UPPER(c) == strlit(s.upper()), STR_STRIP(c) == strlit(s.strip())]
+        x = z3.Const("sx", StrS)
+        out += [z3.ForAll([x], STR_UPPER(STR_LOWER(x)) == STR_UPPER(x)), z3.ForAll([x], STR_LOWER(STR_UPPER(x)) == STR_LOWER(x)),
+                z3.ForAll([x], STR_LOWER(STR_LOWER(x)) == STR_LOWER(x)), z3.ForAll([x], STR_UPPER(STR_UPPER(x)) == STR_UPPER(x))]
     lits = list(STR_LITS.values())
-    return [z3.Distinct(*lits)] if len(lits) > 1 else []
+    if len(lits) > 1:
+        out.append(z3.Distinct(*lits))
+    return out
 
 
 def lit_of(t: z3.ExprRef) -> Optional[str]:
